@@ -600,6 +600,8 @@ const BigIntWordSize = int(unsafe.Sizeof(big.Word(0)))
 
 var bigIntWordSizeAsBig = big.NewInt(int64(BigIntWordSize))
 
+var bigIntWordSizeInBitsAsBig = big.NewInt(int64(BigIntWordSize * 8))
+
 func BigIntByteLength(v *big.Int) int {
 	// NOTE: big.Int.Bits() actually returns a slice of words,
 	// []big.Word, where big.Word = uint,
@@ -828,7 +830,7 @@ func NewBitwiseRightShiftBigIntMemoryUsage(a, b *big.Int) MemoryUsage {
 	//     if b == 0:
 	//         |a| + 4
 	//     else:
-	//         |a| - b/word_size + 4
+	//         max(|a| - b/word_size_in_bits, 0) + 4
 	// else:
 	//     |a| + 4
 
@@ -839,14 +841,20 @@ func NewBitwiseRightShiftBigIntMemoryUsage(a, b *big.Int) MemoryUsage {
 		if b.Sign() == 0 {
 			resultWordLength = aWordLength + 4
 		} else {
+			// NOTE: b is a number of bits, so the number of words shifted out
+			// is b divided by the word size in bits, not in bytes
 			// TODO: meter the allocation of the metering itself
-			shiftByteLengthBig := new(big.Int).Div(b, bigIntWordSizeAsBig)
+			shiftWordLengthBig := new(big.Int).Div(b, bigIntWordSizeInBitsAsBig)
 			// TODO: handle big int shifts
-			if !shiftByteLengthBig.IsInt64() {
+			if !shiftWordLengthBig.IsInt64() {
 				panic(invalidLeftShift)
 			}
-			shiftByteLength := int(shiftByteLengthBig.Int64())
-			resultWordLength = aWordLength - shiftByteLength + 4
+			// the result is zero if all words are shifted out
+			remainingWordLength := 0
+			if shiftWordLength := shiftWordLengthBig.Int64(); shiftWordLength < int64(aWordLength) {
+				remainingWordLength = aWordLength - int(shiftWordLength)
+			}
+			resultWordLength = remainingWordLength + 4
 		}
 	} else {
 		resultWordLength = aWordLength + 4
